@@ -146,6 +146,12 @@ def _cases(seed, tier, tag, n_gen, n_same, n_seq):
         r = _tune(gen_vmx.gen_recipe(rng, tier, combo=combo), rng, i // len(gen_vmx.COMBOS) + i)
         b = gen_vmx.build(r)
         qs, pads = _file_queries(0, b, rng)
+        if i % 3 == 0:
+            # a history on ONE VMX object: after a successful unlock another passphrase must still be refused (and leave the
+            # configuration as it is), the right one must still work
+            known = {b["passphrase"]} | {p_ for p_, _ in b["alt"]}
+            w = [x for x in (b["passphrase"] + "x", "", "zz", b["passphrase"][:-1]) if x not in known]
+            qs = qs + [[0, "good"], [0, "again-wrong", w[0]], [0, "again-wrong", w[1 % len(w)]], [0, "again-good"], [0, "again-wrong", w[-1]]]
         cases.append({"id": f"{tag}g{i}", "recipe": {"kind": "gen", "files": [r]}, "queries": qs})
         for k, q in enumerate(pads[:2]):
             padcases.append({"id": f"{tag}g{i}.pad{k}", "recipe": {"kind": "padonly", "files": [r]}, "queries": [q]})
@@ -190,6 +196,10 @@ def _attempt(files, q):
     text = b["text"]
     if kind == "good":
         return text, b["passphrase"], "ok", b["expected"], "good"
+    if kind == "again-good":
+        return text, b["passphrase"], "ok", b["expected"], "again-good"
+    if kind == "again-wrong":
+        return text, q[2], "E", None, "again-wrong"          # attr stays what the previous attempt left
     if kind == "wrong":
         return text, q[2], "E", b["visible"], "wrong"
     if kind == "alt":
@@ -207,10 +217,16 @@ def build(case):
     files = [gen_vmx.build(fr) for fr in r["files"]]
     truth, attempts, br = [], [], set()
     padonly = False
+    prev_after = None
     for q in case["queries"]:
         text, pw, st, after, tag = _attempt(files, q)
+        reuse = tag.startswith("again-")
+        before = prev_after if reuse else None
+        if after is None:
+            after = prev_after
         truth.append(canon(st, after))
-        attempts.append((text, pw))
+        attempts.append((text, pw, reuse, before))
+        prev_after = after
         br.add(tag)
         padonly |= tag.endswith("-padonly")
     for fr, b in zip(r["files"], files):
@@ -243,8 +259,10 @@ def build(case):
 def impl_run(case, built):
     from dissect.hypervisor.descriptor.vmx import VMX
     answers, errors = [], {}
-    for i, (text, pw) in enumerate(built.attempts):
-        vmx = VMX.parse(text)
+    vmx = None
+    for i, (text, pw, reuse, _) in enumerate(built.attempts):
+        if not (reuse and vmx is not None):
+            vmx = VMX.parse(text)
         try:
             vmx.unlock_with_phrase(pw)
             st = "ok"
@@ -311,8 +329,8 @@ def oracle(req: str) -> str:
 _TABLES: dict[tuple, dict] = {}      # (P token, A token) -> {request: result}
 
 
-def _tokens(text: str, pw: str):
-    attr = gen_vmx.parse_dictionary(text)            # what VMX.parse(text).attr must be (independent parser)
+def _tokens(text: str, pw: str, reuse=False, before=None):
+    attr = before if (reuse and before is not None) else gen_vmx.parse_dictionary(text)   # what VMX.parse(text).attr must be (independent parser)
     a = ",".join(k.encode("utf-8").hex() + ":" + v.encode("utf-8").hex() for k, v in attr.items())
     return "P" + pw.encode("utf-8").hex(), "A" + a
 
@@ -354,12 +372,12 @@ def prefetch(cases):
             b = build(c)
         except Exception:  # noqa: BLE001
             continue
-        keys += [_tokens(t, p) for t, p in b.attempts]
+        keys += [_tokens(*a) for a in b.attempts]
     resolve(keys)
 
 
 def model_lines(case, built):
-    keys = [_tokens(t, p) for t, p in built.attempts]
+    keys = [_tokens(*a) for a in built.attempts]
     if any(k not in _TABLES for k in keys):
         resolve(keys)
     return [_line(p, a, {r: v for r, v in _TABLES[(p, a)].items() if not r.startswith("!")}) for p, a in keys]
